@@ -346,6 +346,154 @@ class SimLock(object):
     self.release()
 
 
+class SimCondition(object):
+  """threading.Condition on the simulated locks (not used by miros today; a refactoring that starts to use one must
+  not make the baton holder block for real)"""
+
+  def __init__(self, lock=None):
+    self._lock = lock if lock is not None else SimRLock()
+    self._waiters = []
+    self._label = _label('cond')
+    self.acquire = self._lock.acquire
+    self.release = self._lock.release
+
+  def __enter__(self):
+    return self._lock.__enter__()
+
+  def __exit__(self, *a):
+    return self._lock.__exit__(*a)
+
+  def wait(self, timeout=None):
+    me = current_ctl()
+    if me is None:
+      raise HarnessError('Condition.wait outside a simulated thread')
+    lock = self._lock
+    if isinstance(lock, SimRLock):
+      if lock._owner is not me:
+        raise RuntimeError('cannot wait on un-acquired lock')
+      saved = lock._count
+      lock._count, lock._owner = 0, None
+    else:
+      if not lock._locked:
+        raise RuntimeError('cannot wait on un-acquired lock')
+      saved = None
+      lock._locked = False
+    tok = {'n': False}
+    self._waiters.append(tok)
+    _y(35)
+    ok = True
+    if not tok['n']:
+      ok = me.sim.block(lambda: tok['n'], None if timeout is None else timeout * 1e6, 'cond:' + self._label)
+    if not tok['n'] and tok in self._waiters:
+      self._waiters.remove(tok)
+    # take the lock back
+    if isinstance(lock, SimRLock):
+      while lock._owner is not None:
+        me.sim.block(lambda: lock._owner is None, None, 'lock:' + lock._label)
+      lock._owner, lock._count = me, saved
+    else:
+      while lock._locked:
+        me.sim.block(lambda: not lock._locked, None, 'lock:' + lock._label)
+      lock._locked = True
+    return bool(tok['n']) if timeout is not None else True
+
+  def wait_for(self, predicate, timeout=None):
+    end = None
+    r = predicate()
+    while not r:
+      if timeout is not None:
+        s = current_sim()
+        if end is None:
+          end = s.now() + timeout
+        left = end - s.now()
+        if left <= 0:
+          break
+        self.wait(left)
+      else:
+        self.wait()
+      r = predicate()
+    return r
+
+  def notify(self, n=1):
+    _y(36)
+    for tok in self._waiters[:n]:
+      tok['n'] = True
+    del self._waiters[:n]
+
+  def notify_all(self):
+    self.notify(len(self._waiters))
+
+  notifyAll = notify_all
+
+
+class SimSemaphore(object):
+
+  def __init__(self, value=1):
+    if value < 0:
+      raise ValueError('semaphore initial value must be >= 0')
+    self._value = value
+    self._label = _label('sem')
+
+  def acquire(self, blocking=True, timeout=None):
+    _y(37)
+    if self._value <= 0:
+      if not blocking:
+        return False
+      me = current_ctl()
+      if me is None:
+        raise HarnessError('Semaphore.acquire would block outside a simulated thread')
+      while self._value <= 0:
+        if not me.sim.block(lambda: self._value > 0, None if timeout is None else timeout * 1e6, 'sem:' + self._label):
+          return False
+    self._value -= 1
+    return True
+
+  def release(self, n=1):
+    self._value += n
+    _y(38)
+
+  def __enter__(self):
+    self.acquire()
+    return self
+
+  def __exit__(self, *a):
+    self.release()
+
+
+class SimBoundedSemaphore(SimSemaphore):
+
+  def __init__(self, value=1):
+    SimSemaphore.__init__(self, value)
+    self._initial = value
+
+  def release(self, n=1):
+    if self._value + n > self._initial:
+      raise ValueError('Semaphore released too many times')
+    SimSemaphore.release(self, n)
+
+
+class SimTimer(SimThread):
+  """threading.Timer: calls a function after an interval of virtual time unless cancelled first"""
+
+  def __init__(self, interval, function, args=None, kwargs=None):
+    SimThread.__init__(self)
+    self.interval = interval
+    self.function = function
+    self.args = args if args is not None else []
+    self.kwargs = kwargs if kwargs is not None else {}
+    self.finished = SimEvent()
+    self.role = 'timer'
+
+  def cancel(self):
+    self.finished.set()
+
+  def run(self):
+    self.finished.wait(self.interval)
+    if not self.finished.is_set():
+      self.function(*self.args, **self.kwargs)
+    self.finished.set()
+
+
 # ------------------------------------------------------------------ queues
 class SimQueue(object):
   kind = 'queue'
